@@ -45,6 +45,16 @@ from ..model import stmt_text
 from .. import drivers as D
 from ..lts import Classifier, extract, method_callee, compare, compile_spec, seq, alt, star, lit
 
+def _through_local(func, e):
+    """the value of a local name that is assigned exactly once in the function"""
+    if isinstance(e, ast.Name):
+        asg = [a for a in ast.walk(func) if isinstance(a, ast.Assign) and any(isinstance(t, ast.Name) and t.id == e.id for t in a.targets)]
+        other = [x for x in ast.walk(func) if isinstance(x, ast.Name) and x.id == e.id and isinstance(x.ctx, ast.Store)]
+        if len(asg) == 1 and len(other) == 1 and len(asg[0].targets) == 1:
+            return asg[0].value
+    return e
+
+
 EXPLANATION = __doc__
 LEVEL_RULE = 'one obligation per (driver | handler | format site | clause); distinct = distinct (rule, function, construct)'
 ASSUMPTIONS = [
@@ -336,8 +346,8 @@ def check_packet_error_class(ctx):
             st = stmt_text(n)
             if n.func.attr != 'append':
                 ctx.violation(rule, addp, st, 'parent entries are not appended (method %s): fields_stack[0] would no longer be the innermost entry' % n.func.attr, n.lineno)
-            elif len(n.args) == 1 and isinstance(n.args[0], ast.Tuple):
-                shape1 = [canon(x) for x in n.args[0].elts]
+            elif len(n.args) == 1 and isinstance(_through_local(addp.node, n.args[0]), ast.Tuple):
+                shape1 = [canon(x) for x in _through_local(addp.node, n.args[0]).elts]
                 if shape0 is not None and shape1 != shape0:
                     ctx.violation(rule, addp, st, 'parent entry shape %s differs from the innermost entry shape %s' % (shape1, shape0), n.lineno)
                 else:
@@ -346,6 +356,17 @@ def check_packet_error_class(ctx):
                 ctx.undecided(rule, addp, st, 'appended value is not a tuple display', n.lineno)
     if shape1 is None:
         ctx.undecided(rule, addp, 'add_parent_field_and_packet', 'no append to fields_stack found', addp.node.lineno)
+    else:
+        # Round 9.  one entry per enclosing reference: every path through the method appends
+        for p_ in ctx.repo.walker().paths(addp.node, cls=pe):
+            if p_.raises():
+                continue
+            apps = p_.calls(lambda e: isinstance(e.call.func, ast.Attribute) and e.call.func.attr == 'append' and canon(e.call.func.value) == 'self.fields_stack')
+            gt = [g for g in p_.guard_texts()]
+            if len(apps) == 1:
+                ctx.holds(rule, addp, 'add_parent_field_and_packet appends once [%s]' % '; '.join(gt)[:80], 'the handler of every enclosing reference leaves exactly one entry', addp.node.lineno)
+            else:
+                ctx.violation(rule, addp, 'add_parent_field_and_packet appends %d entries when [%s]' % (len(apps), '; '.join(gt)[:100]), 'the entry of an enclosing reference is %s: the stack no longer has one entry per level (an enclosing reference can have the very same offset, field name and class name as the entry below it)' % ('dropped' if not apps else 'repeated'), addp.node.lineno)
     # (d)/(e) __str__
     rule = 'R7-str-total'
     offset_vars = set()
@@ -458,6 +479,35 @@ def check_packet_error_class(ctx):
                         protected = True
                     cur = cur_p
                 num_sites.append((f_, n, protected))
+    # Round 9: the same for every other use of an offset that needs an integer -- an index, a
+    # slice bound, arithmetic, hex() / range() / chr()
+    int_uses = []
+    for f_ in str_funcs:
+        par_ = {}
+        for pn in ast.walk(f_.node):
+            for c_ in ast.iter_child_nodes(pn):
+                par_[id(c_)] = pn
+        for n in ast.walk(f_.node):
+            hit = None
+            if isinstance(n, ast.Subscript) and any(isinstance(x, ast.Name) and x.id in offset_vars for x in ast.walk(n.slice)):
+                hit = 'index / slice bound'
+            elif isinstance(n, ast.BinOp) and not isinstance(n.op, ast.Mod) and any(isinstance(x, ast.Name) and x.id in offset_vars for x in (n.left, n.right)) \
+                    and id(n) in par_ and not isinstance(par_[id(n)], (ast.Slice, ast.Subscript)):
+                hit = 'arithmetic'
+            elif isinstance(n, ast.Call) and isinstance(n.func, ast.Name) and n.func.id in ('hex', 'oct', 'bin', 'range', 'chr', 'divmod') \
+                    and any(isinstance(x, ast.Name) and x.id in offset_vars for x in n.args):
+                hit = n.func.id + '()'
+            if hit is None:
+                continue
+            cur, protected = n, False
+            while id(cur) in par_:
+                cur_p = par_[id(cur)]
+                if isinstance(cur_p, ast.Try) and cur in cur_p.body and any(h.type is None or any(t in unparse(h.type) for t in ('TypeError', 'Exception')) for h in cur_p.handlers):
+                    protected = True
+                if isinstance(cur_p, (ast.If, ast.IfExp)) and cur is not cur_p.test and 'isinstance' in unparse(cur_p.test) and any(v in unparse(cur_p.test) for v in offset_vars):
+                    protected = True
+                cur = cur_p
+            int_uses.append((f_, n, hit, protected))
     up = repo.cls('Packet').methods.get('unpack')
     validated = False
     if up is not None:
@@ -473,6 +523,14 @@ def check_packet_error_class(ctx):
         else:
             ctx.violation(rule, f_, st, 'the offset is formatted with an integer conversion, but Packet.unpack(raw, offset) accepts any object as the offset: unpack(raw, offset=None) raises a PacketError whose str() raises TypeError ("%x format: an integer is required")', n.lineno,
                           key='PacketError text: integer conversion of an offset that need not be an integer', witness=True)
+    for f_, n, hit, protected in int_uses:
+        st = stmt_text(n)[:120]
+        if protected:
+            ctx.holds(rule, f_, st, 'the use of an offset as an integer (%s) is protected' % hit, n.lineno)
+        elif validated:
+            ctx.holds(rule, f_, st, 'Packet.unpack rejects an offset that is not an integer', n.lineno)
+        else:
+            ctx.violation(rule, f_, st, 'the offset is used as an integer (%s), but the offsets in the stack are whatever the fields received -- Packet.unpack(raw, offset) accepts any object, a position computed with a true division is a float: str() of that PacketError raises TypeError' % hit, n.lineno, witness=True)
     # __str__ must return on all paths and contain no raise
     if any(isinstance(n, ast.Raise) for n in ast.walk(strm.node)):
         ctx.violation(rule, strm, 'PacketError.__str__', 'contains a raise statement', strm.node.lineno)
